@@ -391,7 +391,8 @@ def stepOne (s : State) (toks : List String) : State × String :=
   | ["flags"] =>
     (s, reply [kv "dg_insert" (flagName datasetGraphInsertCalls), kv "dg_remove" (flagName datasetGraphRemoveCalls),
       kv "gad_insert" (flagName graphAsDatasetInsertCalls), kv "gad_remove" (flagName graphAsDatasetRemoveCalls),
-      kvB "union_forwards_atoms" unionGraphForwardsAtoms])
+      kvB "union_forwards_atoms" unionGraphForwardsAtoms,
+      kvB "ref_forward_ok" (refForwardOK Gen.ViewGlue.refForward), kvB "default_bulk_ok" (defaultBulkOK Gen.ViewGlue.defaultBulk)])
   | _ =>
     match s.mode with
     | .model => let (st', r) := stepI (storeImpl s.desc) false s.st toks; ({ s with st := st' }, r)
